@@ -1001,7 +1001,7 @@ pub open spec fn is_mulW(ta: MatrixShape, y1: Seq<F>, y0: Seq<F>, x: Seq<F>, alp
 //@pre
     let ghost n = Rx.size.0 as int;
     let ghost y0 = y@;
-//@after "svec_to_mat(Y, y);"
+//@before "match is_transpose"
     proof { lemma_smat(*X, n, x@); lemma_smat(*Y, n, y0); }
 //@end
 
@@ -1020,7 +1020,7 @@ pub open spec fn slpc_val(n: int, d: Seq<F>, l: Seq<F>, alphamax: F) -> F {
         r == slpc_val(old(workDelta).size.0 as int, d@, Lambdaisqrt@, alphamax),
         // reaching the return means the eigenvalue engine reported success (`expect`)
         d@.len() > 0 ==> eig_ok(lrsmat(old(workDelta).size.0 as int, d@, Lambdaisqrt@)),
-//@after "workDelta.lrscale(Lambdaisqrt, Lambdaisqrt);"
+//@before "engine.eigvals("
             proof { lemma_lrsmat(*workDelta, old(workDelta).size.0 as int, d@, Lambdaisqrt@); }
 //@end
 
@@ -1061,7 +1061,7 @@ impl PSDTriangleCone<F> {
         // C07 / C15: alpha = smallest eigenvalue of mat(z), beta = sum of its positive eigenvalues
         old(z)@.len() > 0 ==> eig_ok(smat(old(self).n as int, old(z)@)) && r.0 == vm_minimum(eig_of(smat(old(self).n as int, old(z)@)))
             && r.1 == pos_sum(eig_of(smat(old(self).n as int, old(z)@)), old(self).n as int),
-//@after "svec_to_mat(Z, z);"
+//@before "self.data.Eig.eigvals("
             proof { lemma_smat(*Z, old(self).n as int, z@); }
 //@iter 1
 it
@@ -1100,10 +1100,8 @@ it
     ensures final(self).kept(old(self)), is_circ(final(x)@, old(x)@, y@, z@, old(self).n as int),
 //@pre
     let ghost n = self.n as int;
-//@after "svec_to_mat(Z, z);"
-        proof { lemma_smat(*Y, n, y@); lemma_smat(*Z, n, z@); }
-//@after "X.data_mut().set(T::zero());"
-        proof { lemma_gzeros(*X); }
+//@before "X.syr2k("
+        proof { lemma_smat(*Y, n, y@); lemma_smat(*Z, n, z@); lemma_gzeros(*X); }
 //@end
 //@fn file=src/solver/core/cones/psdtrianglecone.rs in="JordanAlgebra<T> for PSDTriangleCone<T>" name=inv_circ_op rules=R1,R2,unreach
 //@contract
@@ -1136,7 +1134,7 @@ it2
 //@contract
     requires old(self).wf(), x@.len() == old(self).numel, dx@.len() == old(self).numel,
     ensures final(self).kept(old(self)), r == lb_val(old(self).n as int, x@, dx@, alpha),
-//@after "svec_to_mat(Q, q);"
+//@before "match self.data.chol1.factor("
         proof { assert(q@ =~= shifted(x@, dx@, alpha)); lemma_smat(*Q, self.n as int, q@); }
 //@end
 //@fn file=src/solver/core/cones/psdtrianglecone.rs in="Cone<T> for PSDTriangleCone<T>" name=compute_barrier rules=R1,R2 ret=r
@@ -1197,9 +1195,9 @@ impl PSDTriangleCone<F> {
 //@pre
     let ghost n = self.n as int;
     proof { lemma_tri_small(n); }
-//@after "svec_to_mat(Z, z);"
+//@before "let c1 ="
     proof { lemma_smat(*S, n, s@); lemma_smat(*Z, n, z@); }
-//@after "RRt.data_mut().set(T::zero());"
+//@before "RRt.syrk("
     proof { lemma_gzeros(*RRt); }
 //@end
 //@fn file=src/solver/core/cones/symmetric_common.rs in="SymmetricConeUtils<T> for C" name=_combined_ds_shift_symmetric rules=R1,R2
